@@ -42,5 +42,9 @@ for d in sorted(list(STASH.iterdir()) + [p for p in OUT.iterdir() if p.is_dir()]
     round2 = n.split('-')[0] in ('C13', 'C14', 'C15', 'C18')
     meta['independence'] = ('second independent round (kept outside /verif while builders worked)' if round2 and int(n.split('-')[1]) >= 4 else
                             ('first round; these patches were visible under /verif/seeded while the builder of this property was still working, so a second independent round (ids 4-6) was run' if round2 else 'producer saw nothing of /verif'))
+    k = int(n.split('-')[1])
+    if (round2 and k == 7) or (not round2 and k == 4):
+        meta['independence'] = ('third round: one fresh change per property, produced after extension round 2 and Phase 3C and run against the '
+                                'final checks; the producer saw only the property text, nothing of /verif; kept outside /verif until tested')
     (dst / 'meta.json').write_text(json.dumps(meta, indent=1) + '\n')
     print(n, '|', (first or '-')[:40], '|', final[:90])
